@@ -244,10 +244,22 @@ fn supervision_case(heard_after: Option<usize>, heard_kind: u64, delay_frac: u64
                         while w.now < end_us + w.bit_us(d) {
                             w.step(5);
                         }
-                        let hb = match heard_kind % 3 {
+                        let hb = match heard_kind % 6 {
                             0 => status_req(7, P),
                             1 => token(P, 7),
-                            _ => rc::encode(&RefFrame::Data { da: 7, sa: P, dsap: None, ssap: None, fc: 0x6C, pdu: vec![1, 2, 3] }),
+                            2 => rc::encode(&RefFrame::Data { da: 7, sa: P, dsap: None, ssap: None, fc: 0x6C, pdu: vec![1, 2, 3] }),
+                            // undecodable activity: the successor is transmitting, its telegram is damaged
+                            3 => vec![0x00, 0x55, 0xAA],
+                            4 => {
+                                let mut f = status_req(7, P);
+                                f[4] ^= 0x10; // checksum
+                                f
+                            }
+                            _ => {
+                                let mut f = rc::encode(&RefFrame::Data { da: 7, sa: P, dsap: None, ssap: None, fc: 0x6C, pdu: vec![1, 2, 3] });
+                                f[2] ^= 0x01; // repeated length byte
+                                f
+                            }
                         };
                         w.bus.inject(ENV, w.now, &hb);
                     }
@@ -373,7 +385,7 @@ fn exhaustive(i: u64, depth: u32, obs: &mut Obs) -> CaseResult {
 pub fn property() -> Property {
     Property {
         id: "C11",
-        rule: "cases: one real station TS=5 (HSA 8, two-station ring with partner 6) against a scripted environment; ALL sequences of depth 3 (quick) / 4-5 (thorough) over a 14-symbol alphabet (tokens P->TS, X->TS, Y->TS, P->X, X->P, 200->TS, TS->P; status request from P / X; status reply; SC; silence of Tslot/2, 1.5 Tslot, token-lost time-out) from two start states (listening; in-ring idle), random sequences up to length 40, and the supervision scenarios (successor silent / heard after the 1st, 2nd, 3rd pass, three kinds of heard telegram, eight delays). History invariants with PS/NS read from inspect_token_ring() immediately before each offer: token from the registered predecessor is accepted, a first offer by a stranger is not, an immediately repeated offer is; a listening station never uses a token and initiates only its claim; nothing is initiated without the token; status requests to TS are answered exactly once; after the own pass: silence => identical token again after > Tslot, three in total, then the successor leaves the LAS and the token goes to the next station; heard => no repetition, successor kept. Non-trivial = sequence contains a token offer to TS or starts in the ring; distinct by sequence.",
+        rule: "cases: one real station TS=5 (HSA 8, two-station ring with partner 6) against a scripted environment; ALL sequences of depth 3 (quick) / 4-5 (thorough) over a 14-symbol alphabet (tokens P->TS, X->TS, Y->TS, P->X, X->P, 200->TS, TS->P; status request from P / X; status reply; SC; silence of Tslot/2, 1.5 Tslot, token-lost time-out) from two start states (listening; in-ring idle), random sequences up to length 40, and the supervision scenarios (successor silent / heard after the 1st, 2nd, 3rd pass, three kinds of heard telegram and three kinds of undecodable activity - noise, bad checksum, bad length repetition -, eight delays). History invariants with PS/NS read from inspect_token_ring() immediately before each offer: token from the registered predecessor is accepted, a first offer by a stranger is not, an immediately repeated offer is; a listening station never uses a token and initiates only its claim; nothing is initiated without the token; status requests to TS are answered exactly once; after the own pass: silence => identical token again after > Tslot, three in total, then the successor leaves the LAS and the token goes to the next station; heard => no repetition, successor kept. Non-trivial = sequence contains a token offer to TS or starts in the ring; distinct by sequence.",
         assumptions: vec![
             "formulated over observable ownership episodes (DESIGN 6, C11 i-v): an offer arriving while TS supervises its own pass counts as a first offer; the remembered stranger is forgotten when TS acted as owner; only one stranger is remembered; a station that saw its own address twice is Offline and has no obligations; 'heard' = a complete valid telegram polled before the slot expires",
             "the environment transmits only after 40 bit times of idle bus and the station is polled every 5 us",
@@ -399,25 +411,25 @@ pub fn property() -> Property {
                 obs.sample(|| json!({"las": [5, 6, 7], "dead": 6, "second_successor_misses": i}));
                 supervision3_case(i as usize, obs)
             }),
-            SubCheck::index("supervision", "own token pass: successor silent, or heard after pass 1/2/3 (3 kinds x 8 delays)", |i, obs| {
+            SubCheck::index("supervision", "own token pass: successor silent, or heard after pass 1/2/3 (3 kinds of valid telegram and 3 kinds of undecodable activity x 8 delays)", |i, obs| {
                 let ha = match i % 4 {
                     0 => None,
                     k => Some(k as usize - 1),
                 };
                 obs.nontrivial(i);
-                obs.sample(|| json!({"heard_after_pass": ha.map(|k| k + 1), "kind": (i / 4) % 3, "delay_eighths": i / 12}));
-                supervision_case(ha, (i / 4) % 3, i / 12, obs)
+                obs.sample(|| json!({"heard_after_pass": ha.map(|k| k + 1), "kind": (i / 4) % 6, "delay_eighths": i / 24}));
+                supervision_case(ha, (i / 4) % 6, i / 24, obs)
             }),
         ],
         plan: |tier| match tier {
             Tier::Quick => vec![
-                Step::Enumerate { kind: "supervision", count: 96 },
+                Step::Enumerate { kind: "supervision", count: 192 },
                 Step::Enumerate { kind: "supervision3", count: 4 },
                 Step::Enumerate { kind: "seq4", count: 2 * 14u64.pow(4) },
                 Step::Pbt { kind: "random", cases: 20_000, max_len: 48 },
             ],
             Tier::Thorough => vec![
-                Step::Enumerate { kind: "supervision", count: 96 },
+                Step::Enumerate { kind: "supervision", count: 192 },
                 Step::Enumerate { kind: "supervision3", count: 4 },
                 Step::Enumerate { kind: "seq5", count: 2 * 14u64.pow(5) },
                 Step::Pbt { kind: "random", cases: 60_000, max_len: 48 },
